@@ -35,6 +35,7 @@ type c08case struct {
 	items   []string // concretised descriptions (for the replay input)
 	probes  uint32
 	aborted bool
+	mu      sync.Mutex // guards items (read by the watch goroutine on a deadlock)
 }
 
 var c08Steps = 9
@@ -140,7 +141,7 @@ func (cs *c08case) injectAll(sc *sctx) {
 		if cs.aborted {
 			break
 		}
-		b.action = kind
+		b.setAction(kind)
 		mark := p.logLen()
 		var h hostile
 		switch {
@@ -153,7 +154,9 @@ func (cs *c08case) injectAll(sc *sctx) {
 				p.send(segs)
 			}
 		}
+		cs.mu.Lock()
 		cs.items = append(cs.items, h.desc)
+		cs.mu.Unlock()
 		b.rec.Count("hostile_items", 1)
 		b.rec.Count("hostile_kind_"+kind, 1)
 		if h.desc == "" {
@@ -183,9 +186,8 @@ func (cs *c08case) injectAll(sc *sctx) {
 		}
 		cs.classify(b, kind, h, mark, !alive)
 	}
-	b.action = "after-injection"
 	if len(cs.kinds) > 0 {
-		b.action = cs.kinds[len(cs.kinds)-1]
+		b.setAction(cs.kinds[len(cs.kinds)-1])
 	}
 }
 
@@ -358,7 +360,9 @@ func runC08(cfg *common.Config, rec *common.Recorder) {
 			nb.scenario = "history"
 			nb.action = "before-injection"
 			nb.extra = func() interface{} {
-				return map[string]interface{}{"inject_at_step": cs.inject, "kinds": cs.kinds, "items": cs.items}
+				cs.mu.Lock()
+				defer cs.mu.Unlock()
+				return map[string]interface{}{"inject_at_step": cs.inject, "kinds": cs.kinds, "items": append([]string(nil), cs.items...)}
 			}
 			bmu.Lock()
 			b = nb
@@ -382,8 +386,11 @@ func runC08(cfg *common.Config, rec *common.Recorder) {
 		if cs.aborted {
 			rec.Count("connections_shut_down_by_conn", 1)
 		}
-		if rec.WantSample() && len(cs.items) > 0 {
-			s := map[string]interface{}{"link": cs.link, "inject_at_step": cs.inject, "items": cs.items}
+		cs.mu.Lock()
+		items := append([]string(nil), cs.items...)
+		cs.mu.Unlock()
+		if rec.WantSample() && len(items) > 0 {
+			s := map[string]interface{}{"link": cs.link, "inject_at_step": cs.inject, "items": items}
 			if bb := get(); bb != nil {
 				s["conn_sent"] = bb.peer.logSummary(10)
 				s["reported"] = bb.rep.list()
